@@ -75,6 +75,12 @@ def table_inputs():
         out += ["see http://example.com/a" + "." * n + "b and more", "wow http://example.com/x" + "!" * n, "x http://a.b/c" + ",;:!?" * (n // 5) + " y",
                 "[http://a.b c" + "." * n + "]", "a" * n + "://b.c", "x " + "ab" * (n // 2) + ":c", "<nowiki>" + "z" * n + "</nowik", "<nowiki>" + "z" * n,
                 "mailto:" + "q" * n + ". r", "\u65e5http://a.b/" + "\u672c" * n + "...", "\U0001d4b3 http://a.b/" + "," * n]
+    # constructs that are tokenized a second time because an enclosing route fails after them (memoised shortcuts are taken then)
+    twice = ["[http://a b [[http://c]] d]", "[http://a.com see [[http://b.com]] too]", "[[http://a y]]", "<!-- c -->", "<!-- u", "{{t|{{u}}{{v}}=w}}", "&amp;", "http://a.b/c.",
+             "{|\n| {{a\n|b}} | c\n|}", "x\'\'\'\'\'y", "[[a|[http://b [[http://c]]]]]"]
+    for outer in ["{{x|", "{{cite|url=", "\'\'", "\'\'\'", "<b>", "== ", "[[File:x.png|", "{{{a|", "<ref name=\"", "{|\n| ", "[http://q ", "{{x|{{y|", "<b>\'\'"]:
+        for t in twice:
+            out += [outer + t, outer + t + " tail", outer + t + t]
     # many table cells (each cell end must give its depth back), then nested markup
     rows = "".join("|-\n" + "| r%dc0 || r%dc1 || r%dc2 || r%dc3 || r%dc4 || r%dc5 || r%dc6 || r%dc7 || r%dc8 || r%dc9\n" % ((r,) * 10) for r in range(12))
     out += ["{|\n" + rows + "|}\n{{done|{{yes|[[link]]}}}}", "{|\n" + rows.replace("| r", "| style=x | r") + "|}\n{{done|{{yes|[[link]]}}}}<b>''x''</b>"]
